@@ -85,7 +85,7 @@ def main(ctx):
             payload = json.load(open(ctx.replay))
             cases = payload["cases"] if "cases" in payload else [payload["case"]]
         else:
-            cases = P.gen_programs(ctx.rng, ctx.tier, 220 if ctx.tier == "quick" else 1500)
+            cases = P.gen_programs(ctx.rng, ctx.tier, 220 if ctx.tier == "quick" else 1500, corpus="C18")
         ctx.log("compiling %d programs x4 in-process, x%d processes" % (len(cases), NPROC + 1))
         results, verd, detail = run_all(ctx, binary, cases)
     bad = [i for i, v in enumerate(verd) if v & 2]
